@@ -6,6 +6,7 @@ import Driver.Proto
 import Driver.PersistStream
 import Driver.HwmonStream
 import Driver.ExecStream
+import Driver.ConfigStream
 import Fan2go.Model.ControlLoop
 import Fan2go.Model.Curves
 import Fan2go.Model.Fan
@@ -23,6 +24,7 @@ structure St where
   ps : PersistDrvSt := {}
   hw : HwmonDrvSt := {}
   ex : ExecDrvSt := {}
+  cfgSt : ConfigDrvSt := {}
   snKind : SensorKind := .file
   snAvg : F64 := F64.zero
   snWin : Int := 10
@@ -338,6 +340,7 @@ def step (st : St) (line : String) : St × String :=
     | "fan" => opFan st op a
     | "w" => opWorld st op a
     | "sn" => opSensor st op a
+    | "cfg" => let (c, o) := configStep st.cfgSt op a; ({ st with cfgSt := c }, o)
     | "ex" => let (e, o) := execStep st.ex op a; ({ st with ex := e }, o)
     | "hw" => let (h, out) := hwmonStep st.hw op a; ({ st with hw := h }, out)
     | "ps" => let (p, o) := persistStep st.ps op a; ({ st with ps := p }, o)
